@@ -1,36 +1,106 @@
-// C01_api.cpp -- Tier A/K over the COMPLETE public API path: MakeContract, Promise::Set / ~Promise, every consumer kind.
+// C01_api.cpp -- the COMPLETE public API path of a Future/Promise pair: MakeContract, Promise::Set / ~Promise, and every
+// consumer kind.  Used sequentially in both orders and as two units of a sequentialised schedule (Tier A): the unit
+// named second runs to completion at the k-th atomic operation of the first (k = one cube per query).
+// Payload is symbolic; producer kind, executor mode and consumer kind are enumerated (one query family each): values that
+// steer pointers are kept concrete so that the solver sees near-concrete control flow per query.
+#include <yaclib/async/connect.hpp>
 #include <yaclib/async/contract.hpp>
 #include <yaclib/async/future.hpp>
 #include <yaclib/async/promise.hpp>
 #include <yaclib/util/result.hpp>
 #include "vp.h"
+#include "vp_stub_exec.h"
 #include <new>
 using namespace yaclib;
 
-alignas(16) static unsigned char vp_obj_f[sizeof(Future<int>)];
-alignas(16) static unsigned char vp_obj_p[sizeof(Promise<int>)];
-#define F (*reinterpret_cast<Future<int>*>(vp_obj_f))
-#define P (*reinterpret_cast<Promise<int>*>(vp_obj_p))
+alignas(16) static unsigned char g_f[sizeof(Future<int>)], g_p[sizeof(Promise<int>)];
+alignas(16) static unsigned char g_f2[sizeof(Future<int>)], g_p2[sizeof(Promise<int>)];
+#define F (*reinterpret_cast<Future<int>*>(g_f))
+#define P (*reinterpret_cast<Promise<int>*>(g_p))
+#define F2 (*reinterpret_cast<Future<int>*>(g_f2))
+#define P2 (*reinterpret_cast<Promise<int>*>(g_p2))
 static int g_v;
-static unsigned g_called;
-static bool g_ok;
+static unsigned g_pkind;            // 0 value, 1 error (StopTag), 2 exception, 3 Promise dropped unset
+static unsigned g_called, g_polled;
+static bool g_state_ok = true, g_value_ok = true, g_produced;
+static vp::StubExec g_exec;
 
-extern "C" void c01a_prologue() {
+static ResultState Expected() {
+  return g_pkind == 0 ? ResultState::Value : g_pkind == 2 ? ResultState::Exception : ResultState::Error;
+}
+template <typename R>
+static void Check(R&& r) {
+  g_state_ok = g_state_ok && r.State() == Expected();
+  if (r.State() == ResultState::Value) g_value_ok = g_value_ok && std::as_const(r).Value() == g_v;
+}
+struct Callback {
+  void operator()(Result<int>&& r) noexcept { ++g_called; Check(r); }
+};
+
+extern "C" void c01a_prologue(unsigned pkind, unsigned deferred) {
   auto [f, p] = MakeContract<int>();
-  new (vp_obj_f) Future<int>{std::move(f)};
-  new (vp_obj_p) Promise<int>{std::move(p)};
+  new (g_f) Future<int>{std::move(f)};
+  new (g_p) Promise<int>{std::move(p)};
   g_v = (int)vp_nondet_u32();
+  g_pkind = pkind;        // producer kind and executor mode are per-query constants (they steer pointers: kept concrete)
+  g_exec.deferred = deferred != 0;
 }
-extern "C" void c01a_set_value() { std::move(P).Set(g_v); }
-extern "C" void c01a_detach_inline() {
-  std::move(F).DetachInline([](Result<int>&& r) noexcept {
-    ++g_called;
-    g_ok = r.State() == ResultState::Value && std::move(r).Ok() == g_v;
-  });
+
+extern "C" void c01a_produce() {
+  switch (g_pkind) {
+    case 0: std::move(P).Set(g_v); break;
+    case 1: std::move(P).Set(StopTag{}); break;
+    case 2: {
+      std::exception_ptr e;
+      try { throw g_v; } catch (...) { e = std::current_exception(); }
+      std::move(P).Set(std::move(e));
+    } break;
+    default: P.~Promise(); break;  // dropped unset -> StopError
+  }
+  g_produced = true;
 }
-extern "C" void c01a_epilogue() {
+
+template <int C>
+static void Consume() {
+  if constexpr (C == 0) { (void)std::move(F).ThenInline(Callback{}); }          // returned Future dropped at once
+  else if constexpr (C == 1) { (void)std::move(F).Then(g_exec, Callback{}); }
+  else if constexpr (C == 2) { std::move(F).Detach(g_exec, Callback{}); }
+  else if constexpr (C == 3) { std::move(F).DetachInline(Callback{}); }
+  else if constexpr (C == 4) { std::move(F).Detach(); }
+  else if constexpr (C == 5) { F.~Future(); }
+  else if constexpr (C == 6) {
+    if (F.Ready()) { ++g_polled; Check(*std::as_const(F).Get()); Check(std::as_const(F).Touch()); }
+    std::move(F).DetachInline(Callback{});
+  } else if constexpr (C == 7) {
+    auto [f2, p2] = MakeContract<int>();
+    bool before = g_exec.deferred;  // per-query constant: attach the final continuation before / after Connect
+    if (before) std::move(f2).DetachInline(Callback{});
+    Connect(std::move(F), std::move(p2));
+    if (!before) std::move(f2).DetachInline(Callback{});
+  }
+}
+extern "C" void c01a_consume_then_inline() { Consume<0>(); }
+extern "C" void c01a_consume_then() { Consume<1>(); }
+extern "C" void c01a_consume_detach_on() { Consume<2>(); }
+extern "C" void c01a_consume_detach_inline() { Consume<3>(); }
+extern "C" void c01a_consume_detach() { Consume<4>(); }
+extern "C" void c01a_consume_drop() { Consume<5>(); }
+extern "C" void c01a_consume_poll() { Consume<6>(); }
+extern "C" void c01a_consume_connect() { Consume<7>(); }
+
+static void Common() {
+  g_exec.Drain();
+  vp_assert(g_state_ok, "C01 consumer observed a Result state different from what was Set (StopError if dropped)");
+  vp_assert(g_value_ok, "C01 consumer observed a value different from what was Set");
+  vp_assert(vp_live_count() == 0, "C03 something allocated for the pipeline is still alive at quiescence");
+}
+extern "C" void c01a_epilogue_cb() {
+  Common();
   vp_assert(g_called == 1, "C01 continuation invoked exactly once");
-  vp_assert(g_ok, "C01 continuation saw the Result that was Set");
-  vp_assert(vp_live_count() == 0, "C03 nothing allocated remains at quiescence");
-  vp_reach("c01a end");
+  vp_reach("c01a callback epilogue");
+}
+extern "C" void c01a_epilogue_nocb() {
+  Common();
+  vp_assert(g_called == 0, "C01 something ran although the Future was dropped");
+  vp_reach("c01a no-callback epilogue");
 }
